@@ -126,6 +126,12 @@ func (w *watches) updatePath(path string, f func(*watch) (*watch, error)) error 
 
 		if upd.wd != wd {
 			delete(w.wd, wd)
+			if ok && upd.path != path {
+				// The path now refers to a file that's already being
+				// watched under another name; don't leave a path entry
+				// without a watch behind.
+				delete(w.path, path)
+			}
 		}
 	}
 
@@ -264,6 +270,14 @@ func (w *inotify) register(path string, flags uint32, recurse bool) error {
 		wd, err := unix.InotifyAddWatch(w.fd, path, flags)
 		if wd == -1 {
 			return nil, err
+		}
+
+		// The path refers to a different file than the one we're watching
+		// under this name (e.g. it was replaced, or it's a symlink that was
+		// retargeted), so stop watching the old one. An error here only means
+		// that the kernel already removed it.
+		if existing != nil && existing.wd != uint32(wd) {
+			_, _ = unix.InotifyRmWatch(w.fd, existing.wd)
 		}
 
 		if e, ok := w.watches.wd[uint32(wd)]; ok {
